@@ -1,10 +1,12 @@
 package tlv
 
 import (
+	"bytes"
 	"encoding/binary"
 	"errors"
 	"fmt"
 	"io"
+	"math"
 
 	"github.com/btcsuite/btcd/btcec/v2"
 )
@@ -330,11 +332,43 @@ func EVarBytes(w io.Writer, val interface{}, _ *[8]byte) error {
 // is not *[]byte.
 func DVarBytes(r io.Reader, val interface{}, _ *[8]byte, l uint64) error {
 	if b, ok := val.(*[]byte); ok {
+		// Only the P2P decoding methods of a Stream cap the length of
+		// a record. A value longer than that cap is read piece by
+		// piece rather than allocating up front whatever the length
+		// field claims.
+		if l > MaxRecordSize {
+			return dLargeVarBytes(r, b, l)
+		}
+
 		*b = make([]byte, l)
 		_, err := io.ReadFull(r, *b)
 		return err
 	}
 	return NewTypeForDecodingErr(val, "[]byte", l, l)
+}
+
+// dLargeVarBytes reads the l bytes of a value that is larger than MaxRecordSize
+// into b. The memory used is bounded by the number of bytes the reader really
+// delivers, not by l.
+func dLargeVarBytes(r io.Reader, b *[]byte, l uint64) error {
+	if l > math.MaxInt64 {
+		return ErrRecordTooLarge
+	}
+
+	var buf bytes.Buffer
+	n, err := io.CopyN(&buf, r, int64(l))
+	switch {
+	// As io.ReadFull does, only report a bare EOF if nothing was read.
+	case err == io.EOF && n > 0:
+		return io.ErrUnexpectedEOF
+
+	case err != nil:
+		return err
+	}
+
+	*b = buf.Bytes()
+
+	return nil
 }
 
 // EBigSize encodes an uint32 or an uint64 using BigSize format. An error is
